@@ -8,7 +8,7 @@ import time
 from . import findings, symx
 from .skeletons import shape
 
-EVID = "/verif/evidence" if not symx.SHADOW else os.path.join(symx.BUILD, "evidence")
+EVID = os.environ.get("VERIF_EVID") or ("/verif/evidence" if not symx.SHADOW else os.path.join(symx.BUILD, "evidence"))
 
 
 def values_record(sk, values, leaf=None):
